@@ -26,3 +26,24 @@ func newContinueResult(target string) result {
 func newBreakResult(target string) result {
 	return result{kind: resultBreak, value: emptyValue, target: target}
 }
+
+// carrying gives a break or continue completion the value that the statements before it
+// produced, unless it carries one already (12.1: an abrupt completion of a statement
+// list keeps the value of the list).
+func (v Value) carrying(value Value) Value {
+	if v.kind == valueResult && value.kind != valueEmpty {
+		if res := v.value.(result); res.kind != resultReturn && res.value.kind == valueEmpty {
+			res.value = value
+			return toValue(res)
+		}
+	}
+	return v
+}
+
+// carried is the value a break or continue completion brings along, or otherwise.
+func (v Value) carried(otherwise Value) Value {
+	if res := v.value.(result); res.value.kind != valueEmpty {
+		return res.value
+	}
+	return otherwise
+}
